@@ -50,7 +50,7 @@ pub fn drive_ans(w: u32, s: u32, precs: &[usize], seed: u64, n_events: usize, ou
         force_export = false;
         if ev % 200 == 199 || choice < 1 {
             // restart from fresh words (compressed or binary import)
-            let len = rng.gen_range(0..6usize);
+            let len = rng.gen_range(0..(2 * (s / w) as usize + 3));
             let mut words: Vec<u128> = (0..len).map(|_| match rng.gen_range(0..5) { 0 => 0, 1 => wmask, _ => rng.gen::<u128>() & wmask }).collect();
             base_id += 1; stack.clear(); debt.clear();
             if rng.gen_bool(0.5) {
@@ -200,8 +200,9 @@ pub fn drive_chain(w: u32, s: u32, precs: &[usize], seed: u64, n_rounds: usize, 
     for round in 0..n_rounds {
         rep.cases += 1;
         let binary = rng.gen_bool(0.5);
-        let len = rng.gen_range(0..12usize);
+        let len = rng.gen_range(0..(12usize.max(2 * (s / w) as usize + 4)));
         let mut data: Vec<u128> = (0..len).map(|_| match rng.gen_range(0..6) { 0 => 0, 1 => wmask, 2 => 1, _ => rng.gen::<u128>() & wmask }).collect();
+        if rng.gen_range(0..8) == 0 { let k = rng.gen_range(1..=(s / w) as usize + 1).min(data.len()); let n0 = data.len(); for x in &mut data[n0 - k..] { *x = wmask; } }
         if !binary { if let Some(l) = data.last_mut() { if *l == 0 && rng.gen_bool(0.8) { *l = 1 + (rng.gen::<u128>() & wmask).min(wmask - 1); } } }
         let mut p = precs[rng.gen_range(0..precs.len())];
         let mut cd = match chain_new(w, s, p, if binary { 0 } else { 1 }, &data) {
@@ -277,6 +278,95 @@ pub fn drive_bound(seed: u64, n_syms: usize) -> Report {
             }
             rep.cases += 1; rep.class(if fixed_p { "bound_fixed_precision" } else { "bound_varying_precision" });
             if w == 32 && fixed_p { let per_symbol = eps_ans / n_syms as f64; if per_symbol >= 0.006 { rep.mismatch(&ctxv, format!("default preset rounding term {} >= 0.006 bit", per_symbol)); } rep.class("default_preset_overhead_below_0.006"); }
+        }
+    }
+    rep
+}
+
+// ------------------------------------------------------------------------------------------------------------------
+// Steered range-coder scenarios: long runs of held-back words (9, 17, 65, 257, ... words), resolved with or without a
+// carry or sealed directly, with and without a temporary view in the middle; and views taken while the range is
+// minimal (the seal then needs its zero padding).  These situations have probability ~2^-(W*L) under random data.
+// ------------------------------------------------------------------------------------------------------------------
+fn mask_s(s: u32) -> u128 { if s >= 128 { u128::MAX } else { (1u128 << s) - 1 } }
+
+/// slot (c, p) at precision `prec` (must equal W for guaranteed renormalisation) that keeps / makes the encoder inverted
+fn steer_inverted(lower: u128, range: u128, sit_n: usize, w: u32, s: u32, prec: usize) -> Option<(u64, u64)> {
+    let k = s - w; let scale = range >> prec; if scale == 0 { return None; }
+    let off = if sit_n > 0 { lower.wrapping_neg() & mask_s(s) } else { let next = ((lower >> k) + 1) << k; (next.wrapping_sub(lower)) & mask_s(s) };
+    if off == 0 { return None; }
+    let q = off / scale; if q >= (1u128 << prec) { return None; }
+    Some((q as u64, 1))
+}
+
+pub fn drive_range_steered(w: u32, s: u32, prec: usize, seed: u64, long: bool, out: &str) -> Report {
+    use crate::range::*;
+    let mut rep = Report::default();
+    let mut rng = Xoshiro256StarStar::seed_from_u64(seed ^ 0x57ee ^ ((w as u64) << 32) ^ ((s as u64) << 40));
+    let mut f = std::io::BufWriter::new(std::fs::File::create(format!("{}.exact.ndjson", out)).unwrap());
+    let tail3 = |v: &[u128]| vals(&v[v.len().saturating_sub(3)..]);
+    let encj = |e: &Box<dyn REncDyn>| { let r = e.raw(); json!({"lower": to_val(r.lower), "range": to_val(r.range), "sitN": r.sit_n, "sitW": to_val(r.sit_w), "bulk_len": r.bulk.len(), "bulk_tail": tail3(&r.bulk)}) };
+    let ctxv = json!({"k": "drive_range_steered", "w": w, "s": s, "P": prec, "seed": seed});
+    let t = 1u64 << prec;
+    let mut lengths: Vec<usize> = vec![1, 2, 3, 8, 9, 10, 16, 17, 33];
+    if long { lengths.extend([64, 65, 70, 129, 256, 257, 300]); }
+    let mut scenarios: Vec<(usize, u8, bool)> = vec![];           // (run length, ending: 0 carry, 1 no carry, 2 seal; peek)
+    for &l in &lengths { for ending in 0..3u8 { for peek in [false, true] { scenarios.push((l, ending, peek)); } } }
+    for _ in 0..24 { scenarios.push((0, 3, true)); }                // 3 = narrow-range peek
+    for (run, ending, peek) in scenarios {
+        rep.cases += 1;
+        let mut enc = renc_new(w, s);
+        let mut o = encj(&enc); o["ev"] = json!("new"); writeln!(f, "{}", o).unwrap();
+        let mut msg: Vec<(Vec<u64>, usize)> = vec![];
+        macro_rules! push { ($cdf:expr, $sym:expr) => {{ let cdf: Vec<u64> = $cdf; let sym: usize = $sym; enc.enc(prec, &cdf, sym).unwrap();
+            let mut o = encj(&enc); o["ev"] = json!("enc"); o["P"] = json!(prec); o["c"] = json!(cdf[sym]); o["p"] = json!(cdf[sym + 1] - cdf[sym]); writeln!(f, "{}", o).unwrap(); msg.push((cdf, sym)); }} }
+        macro_rules! peek { () => {{ let view = enc.get_compressed(); let nwords = enc.num_words(); if nwords != view.len() { rep.mismatch(&ctxv, format!("num_words() = {} but the view has {} words (run {}, {} held back)", nwords, view.len(), run, enc.raw().sit_n)); }
+            let mut o = encj(&enc); o["ev"] = json!("inspect"); o["num_words"] = json!(nwords); o["is_empty"] = json!(enc.is_empty()); o["pos"] = json!(enc.pos().0); o["view_len"] = json!(view.len()); o["view_tail"] = tail3(&view); writeln!(f, "{}", o).unwrap(); }} }
+        for _ in 0..rng.gen_range(0..4) { let cdf = random_cdf(&mut rng, prec); let sym = rng.gen_range(0..cdf.len() - 1); push!(cdf, sym); }
+        if ending == 3 {
+            // steer the range to just above 2^(S-W), look at the coder, go on
+            for _ in 0..rng.gen_range(1..4) {
+                let r = enc.raw(); let scale = r.range >> prec; let k = s - w;
+                let need = ((1u128 << k) + scale - 1) / scale;           // smallest p with scale * p >= 2^(S-W)
+                if need >= 1 && need < t as u128 { let p = need as u64; let c = rng.gen_range(0..=(t - p)); let mut cdf = vec![0u64]; if c > 0 { cdf.push(c); } cdf.push(c + p); if c + p < t { cdf.push(t); } let sym = if c > 0 { 1 } else { 0 }; push!(cdf, sym); rep.class("narrow_range"); }
+                else { let cdf = random_cdf(&mut rng, prec); let sym = rng.gen_range(0..cdf.len() - 1); push!(cdf, sym); }
+                peek!();
+                let cdf = random_cdf(&mut rng, prec); let sym = rng.gen_range(0..cdf.len() - 1); push!(cdf, sym);
+            }
+        } else {
+            let mut guard = 0;
+            while enc.raw().sit_n < run && guard < 4 * run + 64 {
+                guard += 1;
+                let r = enc.raw();
+                match steer_inverted(r.lower, r.range, r.sit_n, w, s, prec) {
+                    Some((c, p)) => { let mut cdf = vec![0u64]; if c > 0 { cdf.push(c); } cdf.push(c + p); if c + p < t { cdf.push(t); } push!(cdf, if c > 0 { 1 } else { 0 }); }
+                    None => { let cdf = random_cdf(&mut rng, prec); let sym = rng.gen_range(0..cdf.len() - 1); push!(cdf, sym); }
+                }
+                if enc.raw().sit_n > 0 && peek && enc.raw().sit_n == run / 2 + 1 { peek!(); }
+            }
+            let reached = enc.raw().sit_n;
+            if reached >= run { rep.class("long_run_reached"); if run >= 9 { rep.class("run_of_9_or_more"); } if run >= 65 { rep.class("run_of_65_or_more"); } if run >= 256 { rep.class("run_of_256_or_more"); } }
+            if peek { peek!(); rep.class("peek_while_holding_back"); }
+            if ending < 2 && reached > 0 {
+                // resolve: a slot entirely above the wrap point (carry) or entirely below it (no carry)
+                let r = enc.raw(); let scale = r.range >> prec; let off = r.lower.wrapping_neg() & mask_s(s); let q = (off / scale.max(1)).min((t - 1) as u128) as u64;
+                let (c, p) = if ending == 0 { if q + 1 < t { (q + 1, (t - q - 1).min(3).max(1)) } else { (0, 1) } } else { if q >= 1 { (q.saturating_sub(2), (q - q.saturating_sub(2)).max(1).min(q)) } else { (t - 1, 1) } };
+                let mut cdf = vec![0u64]; if c > 0 { cdf.push(c); } cdf.push(c + p); if c + p < t { cdf.push(t); } push!(cdf, if c > 0 { 1 } else { 0 });
+                if enc.raw().sit_n == 0 { rep.class(if ending == 0 { "resolved_by_later_symbol_carry_attempt" } else { "resolved_by_later_symbol_nocarry_attempt" }); }
+            }
+            if peek { peek!(); }
+            for _ in 0..rng.gen_range(0..4) { let cdf = random_cdf(&mut rng, prec); let sym = rng.gen_range(0..cdf.len() - 1); push!(cdf, sym); }
+        }
+        let words = enc.clone_box().into_compressed();
+        if enc.num_words() != words.len() { rep.mismatch(&ctxv, format!("num_words() = {}, sealed stream has {} words", enc.num_words(), words.len())); }
+        let mut dec = rdec_from_compressed(w, s, &words);
+        let dj = |d: &Box<dyn RDecDyn>| { let r = d.raw(); json!({"lower": to_val(r.lower), "range": to_val(r.range), "point": to_val(r.point), "pos": r.pos}) };
+        let mut o = dj(&dec); o["ev"] = json!("seal"); o["words_len"] = json!(words.len()); o["words_tail"] = tail3(&words); writeln!(f, "{}", o).unwrap();
+        rep.checks += msg.len() as u64;
+        for (i, (cdf, sym)) in msg.iter().enumerate() {
+            let r = dec.dec(prec, cdf);
+            if r != Ok(*sym) { rep.mismatch(&ctxv, format!("scenario (run {}, ending {}, peek {}): symbol {} of {} decoded as {:?}, expected {} ({} words)", run, ending, peek, i, msg.len(), r, sym, words.len())); break; }
+            let mut o = dj(&dec); o["ev"] = json!("dec"); o["P"] = json!(prec); o["c"] = json!(cdf[*sym]); o["p"] = json!(cdf[sym + 1] - cdf[*sym]); o["maybe_exhausted"] = json!(dec.maybe_exhausted()); writeln!(f, "{}", o).unwrap();
         }
     }
     rep
